@@ -11,6 +11,7 @@ import (
 	"os"
 	"sync"
 	"sync/atomic"
+	"time"
 
 	"github.com/gdamore/tcell/v2"
 )
@@ -58,12 +59,14 @@ type Tty struct {
 	DrainReturnsNil bool // after Drain a blocked Read returns (0,nil) instead of a deadline error
 	reads           int64
 
-	app       int32 // >0 while the application is inside a Screen call
-	finiPhase int32 // 1 while Fini is in progress or done
-	closes    int
-	starts    int
-	stops     int
-	Reading   int32 // number of goroutines blocked in Read
+	app          int32 // >0 while the application is inside a Screen call
+	finiPhase    int32 // 1 while Fini is in progress or done
+	closes       int
+	starts       int
+	stops        int
+	Reading      int32 // number of goroutines blocked in Read
+	WriteDelayNS int64 // when > 0 every Write first sleeps this long (atomic)
+	InDelay      int32 // number of writers currently sleeping
 }
 
 func New(w, h int) *Tty {
@@ -224,6 +227,12 @@ func (t *Tty) Read(b []byte) (int, error) {
 }
 
 func (t *Tty) Write(b []byte) (int, error) {
+	if d := atomic.LoadInt64(&t.WriteDelayNS); d > 0 {
+		// a slow terminal: the writer is held up (without the tty lock, so that reads go on)
+		atomic.AddInt32(&t.InDelay, 1)
+		time.Sleep(time.Duration(d))
+		atomic.AddInt32(&t.InDelay, -1)
+	}
 	t.mu.Lock()
 	defer t.mu.Unlock()
 	t.log("Write", len(b), "")
